@@ -35,8 +35,8 @@ def check(tree, rep, tier='quick', seed=0):
                        'sibling symmetry: the person-specific inputs and lines a definition reads are closed under exchanging the two (R16.5). Withholding moves '
                        'refund-minus-owed one for one: each withholding source enters its line, and each link of the chain 25a/b/c -> 25d -> 33, with coefficient '
                        'exactly 1 on every value path (linear normal forms), and total tax and its ancestors are outside the taint closure of the withholding '
-                       'sources (R16.3, R16.4); with the C15 identity 34 - 37 = 33 - 24 the relation follows.')
-    rep.rule_text = 'obligation = one definition (R16.1/2/5), one (year, chain link, source) (R16.3), one (year, tax line) (R16.4)'
+                       'sources (R16.3, R16.4); with the C15 identity 34 - 37 = 33 - 24 the relation follows. A necessary condition of "a larger deduction never raises tax": where a yes/no line elects between two amounts by comparing them, the amount used when it is false is, per filing status, the very amount it compares against (R16.6).')
+    rep.rule_text = 'obligation = one definition (R16.1/2/5), one (year, chain link, source) (R16.3), one (year, tax line) (R16.4), one elected amount line (R16.6)'
     rep.exhaustive = True
     rep.assumptions = ['NOT decided (no sound static argument in reach): "more wages never lower total tax" and "a larger deduction never raises it" - monotonicity through data-dependent switches (itemize vs standard, credit phase-outs, not-implemented cliffs)',
                        'floating-point re-association of sums of cent-rounded amounts under renumbering is not modelled']
@@ -152,6 +152,8 @@ def check(tree, rep, tier='quick', seed=0):
                 rep.ob('R16.3', f'{y}/{l["line"]}<-{src}', not bad,
                        f'{y} {l["line"]}: an extra dollar of {src} does not move the line by exactly one dollar on every path: {bad[:2]}', d.where,
                        sample={'line': f'{y}/{l["line"]}', 'source': src})
+    n_el = election_consistency(an, rep)
+    rep.floor('amount lines chosen by a comparing yes/no line', n_el, 3)
     rep.floor('definitions checked for renumbering invariance', n_defs, 2200)
     rep.floor('withholding chain links', n_links, 30)
 
@@ -169,3 +171,88 @@ def _coeff(lin, src):
                 if bt[0] == 'a' and bt[1] == src:
                     tot += c * bc
     return tot
+
+
+def election_consistency(an, rep):
+    """R16.6 - an amount chosen by a yes/no line that compares the two candidates: the alternative the amount line
+    uses when the flag is false must be the very amount the flag compares against, for every filing status (both
+    definitions are partially evaluated per status).  Otherwise raising the compared amount across the flag's threshold
+    switches the line to an alternative that is not the larger one: a larger deduction would lower the deduction taken."""
+    from ..linform import lin_of, NonLinear
+    from ..lineabs import LineEval, InputsTok, ValuesTok
+    from ..formx import field_closure
+    cat = an.cat
+    n = 0
+    for d in list(an.defs.values()):
+        if d.rec.cls.name != 'FloatField':
+            continue
+        rets = [p for p in d.paths if p.outcome.kind == 'ret']
+        if len(rets) < 2 or any(not p.guards for p in d.paths):
+            continue
+        firsts = {_flag_key(p.guards[0][0]) for p in d.paths}
+        if len(firsts) != 1 or None in firsts:
+            continue
+        fkey = firsts.pop()
+        if not fkey.startswith(d.fr.name + '.'):
+            continue
+        fd = an.defs.get((d.year, d.fr.name, fkey.split('.', 1)[1]))
+        if fd is None:
+            continue
+        true_vals = {repr(p.outcome.value) for p in rets if p.guards[0][1]}
+        if len(true_vals) != 1:
+            continue
+        try:
+            tv = lin_of([p.outcome.value for p in rets if p.guards[0][1]][0])
+        except NonLinear:
+            continue
+        f1040 = cat.find(d.year, '1040')
+        enum = f1040.input_map()['filing_status'].attrs['enum']
+        reads_status = any(r.atom in ('i:1040.filing_status', 'v:1040.filing_status') for r in d.reads() + fd.reads())
+        members = list(enum.members) if reads_status else ['*']
+        found = False
+        bad = []
+        for m in members:
+            assume = {'i:1040.filing_status': enum.member(m), 'v:1040.filing_status': enum.member(m)} if m != '*' else {}
+            dp = LineEval(cat, d.year, d.fr, assume=assume).run(field_closure(d.rec), [d.rec, InputsTok(d.fr.rec), ValuesTok(d.fr.rec)])
+            fp = LineEval(cat, d.year, fd.fr, assume=assume).run(field_closure(fd.rec), [fd.rec, InputsTok(fd.fr.rec), ValuesTok(fd.fr.rec)])
+            compared = []
+            for p in fp:
+                conds = [g[0] for g in p.guards]
+                if p.outcome.kind == 'ret' and isinstance(p.outcome.value, E):
+                    walk(p.outcome.value, lambda e: conds.append(e) if e.op in ('lt', 'le', 'gt', 'ge') else None)
+                for c in conds:
+                    if isinstance(c, E) and c.op in ('lt', 'le', 'gt', 'ge') and len(c.args) == 2:
+                        try:
+                            la, lb = lin_of(c.args[0]), lin_of(c.args[1])
+                        except NonLinear:
+                            continue
+                        if la == tv:
+                            compared.append(lb)
+                        elif lb == tv:
+                            compared.append(la)
+            if not compared:
+                continue
+            found = True
+            for p in dp:
+                if p.outcome.kind != 'ret' or not p.guards or p.guards[0][1] or p.outcome.value is None:
+                    continue
+                try:
+                    lf = lin_of(p.outcome.value)
+                except NonLinear:
+                    continue
+                if all(lf != c for c in compared):
+                    bad.append(f'for {m} it uses {lf!r} when {fkey} is false, but {fkey} compares {tv!r} with {compared[0]!r}')
+        if not found:
+            continue
+        n += 1
+        rep.ob('R16.6', d.key, not bad,
+               f'{d.key} takes {tv!r} when {fkey} holds and otherwise an amount other than the one {fkey} compares it with ({"; ".join(bad[:1])}): '
+               f'raising the compared amount across that threshold lowers the amount taken', d.where)
+    return n
+
+
+def _flag_key(c):
+    from ..amounts import canon
+    if isinstance(c, E) and c.op == 'v' and c.ty == 'bool':
+        return canon(c.args[0])
+    return None
